@@ -4,6 +4,8 @@ package main
 // (assembly, unsafe, reflection) or that would fork needlessly.
 
 import (
+	"crypto/sha256"
+	"time"
 	"fmt"
 	"go/types"
 	"strings"
@@ -356,7 +358,39 @@ func init() {
 		return nil
 	})
 
-	reg("(time.Time).Format", func(ex *Exec, fn *ssa.Function, a []Value) Value { return ex.opaqueStr("time.Format") })
+	reg("(time.Time).Format", func(ex *Exec, fn *ssa.Function, a []Value) Value {
+		// concrete wall-clock-only instants in UTC are formatted for real; anything else is opaque text
+		t, okT := a[0].(Struct)
+		layout, okL := ex.strConcrete(a[1].(Str))
+		if okT && okL && len(t) == 3 {
+			wall, w1 := t[0].(*Term)
+			ext, w2 := t[1].(*Term)
+			loc, w3 := t[2].(*Value)
+			if w1 && w2 && w3 && wall.IsConst() && ext.IsConst() && loc == nil && wall.val>>63 == 0 {
+				const unixToInternal = (1969*365 + 1969/4 - 1969/100 + 1969/400) * 86400
+				real := time.Unix(ext.Int64()-unixToInternal, int64(wall.val&(1<<30-1))).UTC()
+				return mkStr(real.Format(layout))
+			}
+		}
+		return ex.opaqueStr("time.Format")
+	})
+	reg("crypto/sha256.Sum256", func(ex *Exec, fn *ssa.Function, a []Value) Value {
+		// concrete input: the real digest. Symbolic input is handled by harness-level stubs (uninterpreted digests).
+		sl := a[0].(Slice)
+		if sl.abs != nil {
+			ex.unsupported("sha256.Sum256 of an abstract document")
+		}
+		in, ok := ex.strConcrete(ex.byteSliceToStr(sl))
+		if !ok {
+			ex.unsupported("sha256.Sum256 of symbolic bytes (use a harness stub)")
+		}
+		h := sha256.Sum256([]byte(in))
+		arr := make(Array, 32)
+		for i := range arr {
+			arr[i] = ex.tc.BV(uint64(h[i]), 8)
+		}
+		return arr
+	})
 	reg("(time.Time).String", func(ex *Exec, fn *ssa.Function, a []Value) Value { return ex.opaqueStr("time.String") })
 	reg("(time.Time).GoString", func(ex *Exec, fn *ssa.Function, a []Value) Value { return ex.opaqueStr("time.GoString") })
 	reg("maps.clone", func(ex *Exec, fn *ssa.Function, a []Value) Value {
